@@ -231,6 +231,9 @@ class IASolverBaseClass:  # pylint: disable=R0902
             raise RuntimeError("Either 'F' or 'full_F' must be provided.")
 
         self._clear_precoder_filter()
+        # The full receive filters depend on the precoders
+        self._full_W_H = None
+        self._full_W = None
 
         if P is not None:
             self._P = P
